@@ -568,3 +568,36 @@ def odf_docs() -> dict:
                               "</text:p></draw:text-box></draw:frame></draw:page>"),
     }
     return out
+
+
+# --------------------------------------------------------------------------- round 6: rare temp-directory paths
+def rare_path_archives() -> dict:
+    """archives that take the rare extraction paths: 7z with DUPLICATE member names (one extraction pass per
+    duplicate), the same with the last folder damaged (failure in a later pass), a 7z inside a zip, and a mail
+    whose attachments are such archives (nested temp use)"""
+    import base64
+    import io
+    import zipfile
+    m = [("report.txt", b"first version of the report\n" * 5), ("report.txt", b"second version of the report\n" * 5),
+         ("notes.txt", b"unique member\n" * 5), ("report.txt", b"third version of the report\n" * 5)]
+    dup = make_7z(m)
+    out = {"dup-names.7z": dup, "dup-names-damaged-last.7z": make_7z(m, damage_folder=3),
+           "dup-names-damaged-first.7z": make_7z(m, damage_folder=0)}
+    zb = io.BytesIO()
+    with zipfile.ZipFile(zb, "w", zipfile.ZIP_DEFLATED) as z:
+        z.writestr(zipfile.ZipInfo("inner/dup-names.7z", date_time=(2020, 1, 1, 0, 0, 0)), dup)
+        z.writestr(zipfile.ZipInfo("inner/readme.txt", date_time=(2020, 1, 1, 0, 0, 0)), b"zip holding a 7z\n")
+        z.writestr(zipfile.ZipInfo("inner/damaged.7z", date_time=(2020, 1, 1, 0, 0, 0)), out["dup-names-damaged-last.7z"])
+    out["zip-with-7z.zip"] = zb.getvalue()
+
+    def part(name, data):
+        return ("--c15mail\r\nContent-Type: application/octet-stream; name=\"%s\"\r\nContent-Transfer-Encoding: base64\r\n"
+                "Content-Disposition: attachment; filename=\"%s\"\r\n\r\n%s\r\n"
+                % (name, name, base64.encodebytes(data).decode().replace("\n", "\r\n")))
+    out["mail-with-archives.eml"] = (
+        "From: a@example.invalid\r\nTo: b@example.invalid\r\nSubject: archives attached\r\nDate: Mon, 1 Jan 2024 10:00:00 +0000\r\n"
+        "MIME-Version: 1.0\r\nContent-Type: multipart/mixed; boundary=\"c15mail\"\r\n\r\n"
+        "--c15mail\r\nContent-Type: text/plain; charset=\"utf-8\"\r\n\r\nsee attachments\r\n"
+        + part("dup-names.7z", dup) + part("damaged.7z", out["dup-names-damaged-last.7z"])
+        + part("nested.zip", out["zip-with-7z.zip"]) + "--c15mail--\r\n").encode()
+    return out
